@@ -215,6 +215,8 @@ struct ScenarioRec {
 static CURRENT: Mutex<Option<Arc<ScenarioRec>>> = Mutex::new(None);
 static STRAY: Mutex<usize> = Mutex::new(0);
 static PANICS: Mutex<Vec<String>> = Mutex::new(Vec::new());
+/// directory of the scenario's ProxyAgentStatusTask (`status_task_ms`), None when none is running
+static STATUS_DIR: Mutex<Option<std::path::PathBuf>> = Mutex::new(None);
 
 fn build_reply(spec: &Value, head_request: bool) -> Vec<u8> {
     if let Ok(Some(raw)) = bytes_field(spec, "raw") {
@@ -685,6 +687,49 @@ async fn summaries(shared: &SharedState) -> Value {
     json!({"failed": failed, "ok": ok, "http_connection_count": http_count})
 }
 
+/// The fragment of status.json a real `ProxyAgentStatusTask` (scenario field `status_task_ms`) publishes.
+/// Waits until the file has been completely rewritten TWICE after this call (its "timestamp" changed
+/// twice; the write is temp-file + rename), so that what is returned was computed after the call.
+/// Null when no task is running.
+async fn status_json() -> Value {
+    let dir = match STATUS_DIR.lock().unwrap().clone() {
+        Some(d) => d,
+        None => return Value::Null,
+    };
+    let path = dir.join("status.json");
+    let read = |p: &std::path::Path| -> Option<Value> {
+        std::fs::read(p).ok().and_then(|b| serde_json::from_slice::<Value>(&b).ok())
+    };
+    let stamp = |v: &Option<Value>| -> Option<String> {
+        v.as_ref().and_then(|x| x.get("timestamp")).and_then(|t| t.as_str()).map(|t| t.to_string())
+    };
+    let mut last = stamp(&read(&path));
+    let mut changes = 0;
+    let t0 = std::time::Instant::now();
+    while t0.elapsed() < Duration::from_secs(5) {
+        tokio::time::sleep(Duration::from_millis(1)).await;
+        let cur = read(&path);
+        let ts = stamp(&cur);
+        if ts.is_some() && ts != last {
+            changes += 1;
+            last = ts;
+            if changes >= 2 {
+                let v = cur.unwrap();
+                let conv = |key: &str| -> Value {
+                    let mut items: Vec<Value> = v.get(key).and_then(|x| x.as_array()).cloned().unwrap_or_default();
+                    items.sort_by_key(|x| x.to_string());
+                    Value::Array(items)
+                };
+                return json!({"failed": conv("failedAuthenticateSummary"), "ok": conv("proxyConnectionSummary"),
+                              "timestamp": v.get("timestamp").cloned().unwrap_or(Value::Null),
+                              "has_failed_field": v.get("failedAuthenticateSummary").is_some(),
+                              "has_ok_field": v.get("proxyConnectionSummary").is_some()});
+            }
+        }
+    }
+    json!({"error": format!("status.json in {} was not rewritten twice within 5 s", dir.display())})
+}
+
 fn snapshot_json() -> Value {
     Value::Array(hooks::snapshot().iter().map(|(p, r)| json!([p, record_json(r)])).collect())
 }
@@ -750,7 +795,8 @@ async fn run_ops(ops: Option<&Value>, shared: &SharedState, env: &Env, snaps: &M
             "sleep_ms" => tokio::time::sleep(Duration::from_millis(op.get("ms").and_then(|x| x.as_u64()).unwrap_or(1))).await,
             "snapshot" => {
                 let s = json!({"label": op.get("label").cloned().unwrap_or(Value::Null),
-                               "audit_map": snapshot_json(), "summary": summaries(shared).await});
+                               "audit_map": snapshot_json(), "summary": summaries(shared).await,
+                               "status_json": status_json().await});
                 snaps.lock().unwrap().push(s);
             }
             other => return Err(format!("unknown op {:?}", other)),
@@ -1152,6 +1198,22 @@ async fn run_scenario(sc: Value, env: Arc<Env>) -> Value {
         }
     }
 
+    // ---- optional: a real ProxyAgentStatusTask publishing status.json every `status_task_ms`
+    *STATUS_DIR.lock().unwrap() = None;
+    if let Some(ms) = sc.get("status_task_ms").and_then(|x| x.as_u64()) {
+        let dir = std::path::PathBuf::from(std::env::var("E2E_SCRATCH").unwrap_or_default()).join(format!("status.{}", proxy_port));
+        let _ = std::fs::remove_dir_all(&dir);
+        let task = gpa::proxy_agent_status::ProxyAgentStatusTask::new(
+            Duration::from_millis(ms.max(2)),
+            dir.clone(),
+            shared.get_cancellation_token(),
+            shared.get_key_keeper_shared_state(),
+            shared.get_agent_status_shared_state(),
+        );
+        tokio::spawn(async move { task.start().await });
+        *STATUS_DIR.lock().unwrap() = Some(dir);
+    }
+
     // ---- the real listener
     let server = ProxyServer::new(proxy_port, &shared);
     let server_task = tokio::spawn(async move { server.start().await });
@@ -1234,6 +1296,8 @@ async fn run_scenario(sc: Value, env: Arc<Env>) -> Value {
 
     // ---- collect
     let summary = summaries(&shared).await;
+    let status_file = status_json().await;
+    *STATUS_DIR.lock().unwrap() = None;
     shared.cancel_cancellation_token();
     let _ = tokio::time::timeout(Duration::from_secs(5), server_task).await;
     *CURRENT.lock().unwrap() = None;
@@ -1259,6 +1323,7 @@ async fn run_scenario(sc: Value, env: Arc<Env>) -> Value {
         "audit_map": snapshot_json(),
         "trace": trace_json(hooks::take_trace()),
         "summary": summary,
+        "status_json": status_file,
         "snapshots": snaps.lock().unwrap().clone(),
         "drained": drained,
         "stray_upstream": stray,
